@@ -493,6 +493,34 @@ func (c c07Check) determinism(a c07Args, w *Worker, res *UnitResult) {
 			}
 		}
 	}
+	if a.Shard == 0 && a.Depth == 1 && w.Case("FSM snapshot taken before later entries are applied") && reset() {
+		// raft calls FSM.Snapshot between two Apply calls and Persist later, while further entries are applied: the
+		// snapshot must hold the state as of Snapshot(), not as of Persist()
+		c07Apply(A, []Action{cmd("SET", "a", "x"), cmd("APPEND", "a", "y"), cmd("SET", "n", "1"), cmd("RPUSH", "q", "1")}, 1)
+		c07Apply(A, []Action{cmd("DEL", "q")}, 1) // strings only in the snapshot (other kinds do not survive JSON, see the known findings)
+		atSnapshot := A.alpha()
+		err, pan, hang := A.in.Call(func() error { return A.in.db.VerifFSMSnapshotBegin() })
+		if err == nil && pan == "" && !hang {
+			c07Apply(A, []Action{cmd("APPEND", "a", "z"), cmd("INCR", "n"), cmd("SET", "later", "1")}, 1)
+			err, pan, hang = A.in.Call(func() error { return A.in.db.VerifFSMSnapshotFinish(B.in.db, verifrt.Now().UnixMilli()) })
+		}
+		res.Stats["fsm_snapshot_protocol_checks"]++
+		tx := func(x Alpha) string {
+			t := Alpha{}
+			for db, m := range x {
+				t[db] = normText(m)
+			}
+			return alphaKey(t)
+		}
+		switch {
+		case pan != "" || hang || err != nil:
+			res.Findings = append(res.Findings, Finding{Prop: "C07", Kind: "raft-snapshot", Sig: "fsm-snapshot-protocol|failed",
+				Detail: fmt.Sprintf("FSM.Snapshot / Persist / Restore with entries applied in between: err=%v panic=%s hang=%v", err, firstLine(pan), hang)})
+		case tx(B.alpha()) != tx(atSnapshot):
+			res.Findings = append(res.Findings, Finding{Prop: "C07", Kind: "raft-snapshot", Sig: "fsm-snapshot-protocol|snapshot-holds-later-entries",
+				Detail: "a snapshot whose FSM.Snapshot() was called before further entries were applied restores another dataset than the one at that moment: " + firstDiff(atSnapshot, B.alpha())})
+		}
+	}
 	if a.Shard == 0 && a.Depth == 1 {
 		roundTrip("raft snapshot of string keys restored on another node", "strings", []Action{cmd("SET", "a", "1"), cmd("SET", "b", "text"), cmd("SET", "c", "1.5"),
 			cmd("SET", "v", "x", "EX", "1000"), cmd("SELECT", "1"), cmd("SET", "other", "db1"), cmd("SELECT", "0")})
@@ -670,6 +698,40 @@ func (c c07Check) cluster(a c07Args, w *Worker, res *UnitResult) {
 					break
 				}
 			}
+		}
+	}
+	// the same write issued twice through the forwarding follower must be applied twice (gossip forwarding is best
+	// effort, so one lost message proves nothing: only three losses of the repeated message out of three count)
+	if a.Shard == 0 {
+		waitVal := func(key, want string) bool {
+			end := time.Now().Add(5 * time.Second)
+			for time.Now().Before(end) {
+				if o := L.call("GET", key); !o.V.Nul && o.V.Text() == want {
+					return true
+				}
+				time.Sleep(20 * time.Millisecond)
+			}
+			return false
+		}
+		lost, fine := 0, 0
+		for attempt := 0; attempt < 3; attempt++ {
+			key := fmt.Sprintf("repeat%d", attempt)
+			if o := F.call("INCR", key); o.V.IsErr() || o.Hang || !waitVal(key, "1") {
+				continue // the first one did not arrive: nothing can be said about the second
+			}
+			if o := F.call("INCR", key); o.V.IsErr() || o.Hang {
+				continue
+			}
+			if waitVal(key, "2") {
+				fine++
+			} else {
+				lost++
+			}
+		}
+		res.Stats["repeated_forwarded_writes_applied"] += int64(fine)
+		if lost == 3 {
+			res.Findings = append(res.Findings, Finding{Prop: "C07", Kind: "forwarded-write-lost", Sig: "forwarded-write-lost|the same command sent twice through the forwarding follower",
+				Detail: "INCR k sent twice through the forwarding follower (each acknowledged): the first reached the leader, the second never did - three times out of three"})
 		}
 	}
 	// a node that joins late replays the leader's log from the start and must converge to the same dataset
